@@ -15,7 +15,6 @@ type G struct {
 	inMap       int
 	// trigger switches
 	valueless     bool
-	histNoBuckets bool
 	droppedCounts bool
 }
 
@@ -347,7 +346,8 @@ func (g *G) point(typ int, attrPool []Attrs, boundsPool [][]uint64) Pt {
 		p.Ex = g.exemplars()
 		if flagged {
 			p.Flags = 1
-		} else if g.histNoBuckets && g.r.Chance(1, 4) {
+		} else if g.r.Chance(1, 6) {
+			// no bucket counts and no bounds: valid OTLP (rejected by the converters before repo commit 9c5d1f7)
 			p.Bounds, p.Buckets = nil, nil
 		}
 	case MExp:
